@@ -378,7 +378,10 @@ class Tensor(Funsor, metaclass=TensorMeta):
             probs = probs / np.sum(probs, -1, keepdims=True)
             s = np.cumsum(probs, -1)
             r = np.random.rand(*shape)
-            flat_sample = np.sum(s < np.expand_dims(r, -1), axis=-1)
+            # Count prefix sums <= r, never the last one (which is 1 up to rounding):
+            # the result is always a valid cell, and cells of zero mass are
+            # skipped even when r == 0.
+            flat_sample = np.sum(s[..., :-1] <= np.expand_dims(r, -1), axis=-1)
 
         assert flat_sample.shape == sample_shape + batch_shape
         results = []
